@@ -55,6 +55,6 @@ class GammaPriorConcentrationSampler(object):
 
             new_value = gamma.rvs(shape, scale=(1 / rate), random_state=self._rng)
 
-            new_value = max(new_value, 1e-10)  # Catch numerical error
+        new_value = max(new_value, 1e-10)  # Catch numerical error
 
         return new_value
